@@ -56,7 +56,7 @@ class Provenance:
         """returns None or a description of what is wrong"""
         if rx not in self.ids:
             return "telegram reported for an unknown id" if reported else None
-        exp = None  # the only telegram that may legitimately be reported
+        exp = None  # the only telegram that may legitimately be reported for this frame
         if len(d) >= 1:
             ft = d[0] >> 4
             lo = d[0] & 15
@@ -66,28 +66,38 @@ class Provenance:
                 else:
                     exp = bytes(d[1:1 + lo])
             elif ft == 1 and len(d) >= 2:
-                self.cur[rx] = dict(n=(lo << 8) | d[1], data=bytes(d[2:]), last=0, emitted=False)
+                c = self.cur[rx] = dict(n=(lo << 8) | d[1], data=bytes(d[2:]), last=0, emitted=False)
+                if len(c["data"]) >= c["n"]:
+                    exp = c["data"][:c["n"]]  # a first frame which already carries everything
             elif ft == 2:
                 c = self.cur.get(rx)
-                if c is not None and not c["emitted"] and (c["last"] + 1) % 16 == lo:
+                if c is not None and (c["last"] + 1) % 16 == lo and len(c["data"]) < c["n"]:
                     c["last"] = lo
                     c["data"] += bytes(d[1:])
                     if len(c["data"]) >= c["n"]:
                         exp = c["data"][:c["n"]]
-                        c["emitted"] = True
+                elif c is not None and not c["emitted"] and (c["last"] + 1) % 16 == lo:
+                    # announced length already reached by the first frame alone
+                    c["last"] = lo
+                    c["data"] += bytes(d[1:])
+                    exp = c["data"][:c["n"]]
         for (tid, t) in reported:
             if tid != rx:
                 return f"telegram reported for id {tid:#x} while processing a frame of id {rx:#x}"
         if len(reported) > 1:
             return "more than one telegram for one frame"
         if reported:
+            ft = d[0] >> 4 if len(d) else -1
             if exp is None:
                 return ("a telegram was reported although the history contains no single frame or "
-                        "completed first-frame transfer justifying it")
+                        "first-frame transfer justifying it")
             if bytes(reported[0][1]) != exp:
                 return f"reported telegram {bytes(reported[0][1]).hex()} differs from the justified one {exp.hex()}"
-        elif exp is not None:
-            return f"telegram {exp.hex()} was not reported"
+            if ft in (1, 2):
+                c = self.cur[rx]
+                if c["emitted"]:
+                    return "a second telegram was reported for one first frame"
+                c["emitted"] = True
         return None
 
 
